@@ -56,7 +56,7 @@ def main():
     ms = [m for m in json.load(open(os.path.join(HERE, "mutants.json"))) if a.m in m["id"] and not m.get("post_old") and not m.get("all")]
     if a.m == "seeded":
         ms = []
-    rfs = sorted(p for p in glob.glob(os.path.join(HERE, "refactors", "*.diff")) if a.k in os.path.basename(p))
+    rfs = sorted(p for p in glob.glob(os.path.join(HERE, "refactors", "*.diff")) if a.k in os.path.basename(p) and ".before-" not in p)
     bases, pairs, skipped = {}, [], 0
     for rf in rfs:
         files = set()
